@@ -79,7 +79,8 @@ theorem invalid_never_encapsulated (mtu : Nat) (pkts : List Bytes) (sched : List
   rw [h5, h4] at this
   simp only [carried, List.nil_append, List.append_nil] at this
   rw [encode_eq, ← h2, ← this]
-  simp
+  simp only [List.map_map]
+  rfl
 
 theorem frames_within_mtu (mtu : Nat) (pkts : List Bytes) (sched : List Bool) :
     ∀ f ∈ encode mtu pkts sched, hdrLen + f.payload.length ≤ max mtu hdrLen := by
@@ -128,8 +129,8 @@ theorem validPkt_iff (p : Bytes) :
       rw [if_neg (by omega), hx, hy]
       simpa using he
     · have h4 : ¬ b0.toNat / 16 = 4 := by omega
-      simp only [h4, if_false, h6, if_true]
-      rw [if_neg (by omega), hx, hy]
+      simp only
+      rw [if_neg h4, if_pos h6, if_neg (by omega), hx, hy]
       simpa using he
 
 /-! ## Loss, duplication, reordering, several streams -/
